@@ -3,10 +3,12 @@ use serde_json::Value;
 
 pub mod c01;
 pub mod c02;
+pub mod c03;
 pub mod c04;
 pub mod c06;
 pub mod c11;
 pub mod c12;
+pub mod c13;
 pub mod c15;
 pub mod c16;
 pub mod c17;
@@ -17,10 +19,12 @@ pub fn registry() -> Vec<(&'static str, fn(&Report), Option<fn(&Value) -> String
     vec![
         ("C01", c01::run, Some(c01::replay)),
         ("C02", c02::run, Some(c02::replay)),
+        ("C03", c03::run, Some(c03::replay)),
         ("C04", c04::run, Some(c04::replay)),
         ("C06", c06::run, Some(c06::replay)),
         ("C11", c11::run, Some(c11::replay)),
         ("C12", c12::run, Some(c12::replay)),
+        ("C13", c13::run, Some(c13::replay_case)),
         ("C15", c15::run, Some(c15::replay)),
         ("C16", c16::run, Some(c16::replay)),
         ("C17", c17::run, Some(c17::replay)),
